@@ -201,6 +201,9 @@ def run_cases(pid, cfg, tag, seed, tier, replay_cases=None, timeout=3000):
         rc, out, dt = 124, "harness timed out after %ds" % timeout, timeout
     res = {"rc": rc, "log": out[-20000:], "wall": dt, "cases": [], "obs": [], "model": [], "stats": {}}
     if rc != 0 or not os.path.exists(base + ".stats"):
+        cur = base + ".obs.cur"
+        if os.path.exists(cur):
+            res["crash_case"] = open(cur, errors="replace").read()[:20000]  # the case the harness died in
         return res
     res["cases"] = open(base + ".cases").read().split("\n")[:-1]
     res["obs"] = open(base + ".obs").read().split("\n")[:-1]
@@ -308,8 +311,10 @@ def main(argv):
             r["tag"] = tag
             runs.append(r)
             if r["rc"] != 0:
+                cc = r.get("crash_case")
                 breaks.append({"kind": "harness", "sig": pid.lower() + ":harness-exit",
-                               "what": "conformance harness exited with %s on the real code (%s)" % (r["rc"], tag), "detail": r["log"][-6000:]})
+                               "what": "conformance harness exited with %s on the real code (%s)%s" % (r["rc"], tag, (" while running the case: " + cc[:300]) if cc else ""),
+                               "detail": r["log"][-6000:], "cases": [cc] if cc else []})
                 continue
             if r.get("model_rc", 0) != 0:
                 breaks.append({"kind": "harness", "sig": pid.lower() + ":driver-exit", "what": "model driver failed", "detail": r.get("model_log", "")})
@@ -360,7 +365,7 @@ def main(argv):
         print("KNOWN-FINDING: property=%s %s [%s, %d occurrence(s) this run]" % (pid, k["what"], sig, len(bs)))
 
     # ---- failing-input search when only a proof / correspondence tie broke ---------------------
-    found_input = [b for b in unlisted if b["kind"] == "oracle"]
+    found_input = [b for b in unlisted if b["kind"] == "oracle" or (b["kind"] == "harness" and b.get("cases"))]
     searched = 0
     harness_died = any(b["kind"] == "harness" for b in unlisted)
     if unlisted and not found_input and gok and driver_ok and cfg.get("runner") and not a.replay and not harness_died:
